@@ -265,10 +265,19 @@ by_rank(struct proc *p1, struct proc *p2)
 {
 	int id1 = p1->rank;
 	int id2 = p2->rank;
+	int pid1 = proc_get_pid(p1);
+	int pid2 = proc_get_pid(p2);
 
 	if (id1 < id2)
 		return -1;
 	if (id1 > id2)
+		return +1;
+
+	/* Same rank: order by PID, so the result doesn't depend on the
+	 * order in which the streams were loaded */
+	if (pid1 < pid2)
+		return -1;
+	if (pid1 > pid2)
 		return +1;
 	else
 		return 0;
